@@ -24,6 +24,14 @@ func init() {
 		// … and the glue between Run and the process: what environment the executor hands over
 		skelTarget{Name: "executor.NewExecutor", File: "pkg/executor/executor.go", Recv: "", Func: "NewExecutor",
 			Calls: []string{"Command", "Environ", "append"}},
+		// fourth wave: which operations of a FAILED hook's patch file are executed
+		skelTarget{Name: "objectpatch.GetPatchStatusOperationsOnHookError", File: "pkg/kube/object_patch/operation.go", Recv: "", Func: "GetPatchStatusOperationsOnHookError",
+			Calls: []string{"append"}},
+		// … and the configuration plumbing of the temp / hooks directories (bootstrap.go)
+		skelTarget{Name: "utils.EnsureTempDirectory", File: "pkg/utils/file/dir.go", Recv: "", Func: "EnsureTempDirectory",
+			Calls: []string{"Abs", "DirExists", "Mkdir", "MkdirTemp", "MkdirAll", "Clean", "EvalSymlinks", "Getwd", "Join"}},
+		skelTarget{Name: "utils.RequireExistingDirectory", File: "pkg/utils/file/dir.go", Recv: "", Func: "RequireExistingDirectory",
+			Calls: []string{"Abs", "DirExists", "Mkdir", "MkdirTemp", "MkdirAll", "Clean", "EvalSymlinks", "Getwd", "Join"}},
 	)
 	factFns = append(factFns, c12Facts)
 }
@@ -113,6 +121,35 @@ func c12Facts(l *leanDefs) {
 			return true
 		})
 		l.def("c12KeepFlagHelp", "String", strconv.Quote(help), "pkg/app/debug.go --debug-keep-tmp-files")
+	}
+	// the comparisons of GetPatchStatusOperationsOnHookError: "<selector> <op> <literal>" for string
+	// literals, "<selector>" / "!<selector>" for the boolean operands of its conditions
+	{
+		var cmps []string
+		sub := "<stale>"
+		if fd := findFunc("pkg/kube/object_patch/operation.go", "", "GetPatchStatusOperationsOnHookError"); fd != nil && fd.Body != nil {
+			ast.Inspect(fd.Body, func(n ast.Node) bool {
+				be, ok := n.(*ast.BinaryExpr)
+				if !ok || (be.Op != token.EQL && be.Op != token.NEQ) {
+					return true
+				}
+				x, y := be.X, be.Y
+				if _, isLit := x.(*ast.BasicLit); isLit {
+					x, y = y, x
+				}
+				if bl, isLit := y.(*ast.BasicLit); isLit && bl.Kind == token.STRING {
+					lit, _ := strconv.Unquote(bl.Value)
+					sel := exprStr(x)
+					cmps = append(cmps, sel[strings.LastIndex(sel, ".")+1:]+" "+be.Op.String()+" "+lit)
+					if strings.HasSuffix(sel, "subresource") && sub == "<stale>" {
+						sub = lit
+					}
+				}
+				return true
+			})
+		}
+		l.def("c12OnErrorCompares", "List String", leanStrList(cmps), "pkg/kube/object_patch/operation.go GetPatchStatusOperationsOnHookError")
+		l.def("c12OnErrorSubresource", "String", strconv.Quote(sub), "pkg/kube/object_patch/operation.go GetPatchStatusOperationsOnHookError")
 	}
 	var envs []string
 	for _, f := range c12SprintfFormats(findFunc(file, "Hook", "Run")) {
